@@ -134,7 +134,8 @@ def render_plain(spec: dict) -> list:
         if not u.get("group"):
             out.append(render_unit(u))
     for d in spec.get("ddims", ()):
-        out.append(render_ddim(d))
+        if not d.get("late"):  # a late dimension is known to the model only; the run defines it (or not)
+            out.append(render_ddim(d))
     for g in spec.get("groups", ()):
         out.extend(render_group(g, spec.get("units", ())))
     for a in spec.get("aliases", ()):
